@@ -106,7 +106,7 @@ class FuncInfo:
 
 
 class ModInfo:
-    def __init__(self, short, path):
+    def __init__(self, short, path, function_renames=None):
         self.short = short          # 'ersatz', 'tools.fimo'
         self.path = path
         with open(path, "rb") as f:
@@ -118,7 +118,10 @@ class ModInfo:
         except SyntaxError as e:
             raise AnalysisError("cannot parse %s: %s" % (path, e))
         from . import canon
+        pre = canon.apply_function_renames(short, self.tree, function_renames) if function_renames and not os.environ.get("TMVERIF_NO_CANON") else []
         self.canon_log = canon.canonicalise_module(short, self.tree)
+        if pre:
+            self.canon_log.setdefault("<module>", []).extend(pre)
         self.funcs = {}
         self.imports = {}   # local name -> dotted origin  ('predict' -> 'predict.predict', 'numpy' -> 'numpy')
         for n in self.tree.body:
@@ -148,6 +151,7 @@ class Repo:
         pkg = os.path.join(self.root, "tangermeme")
         if not os.path.isdir(pkg):
             raise AnalysisError("no tangermeme package under %s" % self.root)
+        paths = {}
         for dirpath, dirs, files in os.walk(pkg):
             dirs[:] = [d for d in dirs if d != "__pycache__"]
             for fn in sorted(files):
@@ -156,7 +160,22 @@ class Repo:
                     rel = os.path.relpath(path, pkg)[:-3].replace(os.sep, ".")
                     if rel.endswith("__init__"):
                         continue
-                    self.mods[rel] = ModInfo(rel, path)
+                    paths[rel] = path
+        # module-level functions that exist under another name in the reference (tmverif.canon N15): found on a first parse of every module
+        renames = {}
+        if not os.environ.get("TMVERIF_NO_CANON"):
+            from . import canon
+            for rel, path in paths.items():
+                try:
+                    with open(path, "rb") as f:
+                        t = ast.parse(f.read().decode("utf8"))
+                    r = canon.module_function_renames(rel, t)
+                    if r:
+                        renames[rel] = r
+                except (SyntaxError, UnicodeDecodeError):
+                    pass
+        for rel, path in sorted(paths.items()):
+            self.mods[rel] = ModInfo(rel, path, renames)
         self.consulted = set()
 
     def mod(self, short):
